@@ -350,3 +350,36 @@ func (t *TopRunner) Run() error {
 	}
 	return nil
 }
+
+// Runners that take their ordering role from embedded structs: the Order() of a shared base struct (promoted),
+// the priority mark of the library's helper struct.
+type RunnerBase struct {
+	Nm  string
+	Ord int
+	Log *mon.Lifecycle
+}
+
+func (b *RunnerBase) Naming() string { return b.Nm }
+func (b *RunnerBase) Order() int     { return b.Ord }
+func (b *RunnerBase) Run() error {
+	b.Log.Add("run", b.Nm)
+	return nil
+}
+
+type PromotedPriorityRunner struct {
+	definition.PriorityComponent
+	RunnerBase
+}
+type PromotedOrderedRunner struct{ RunnerBase }
+
+// PromotedPlainRunner: neither mark (unordered).
+type PromotedPlainRunner struct {
+	Nm  string
+	Log *mon.Lifecycle
+}
+
+func (b *PromotedPlainRunner) Naming() string { return b.Nm }
+func (b *PromotedPlainRunner) Run() error {
+	b.Log.Add("run", b.Nm)
+	return nil
+}
